@@ -29,7 +29,7 @@ NAMES = ['a', 'b', 'c']
 NSS = ['', '', '', 'urn:x', 'urn:y']
 NSMAP = {'x': 'urn:x', 'y': 'urn:y'}
 ATTR_NAMES = ['n', 'm', 'id']
-NUM_VALUES = ['1', '2', '3', '10', '2.5', '02', ' 2 ', '-1', '0']
+NUM_VALUES = ['1', '2', '3', '10', '2.5', '02', ' 2 ', '-1', '0', '+2', '1e1', '.5', '5.', '0.50']
 STR_VALUES = ['', 'abc', 'a b', 'b', 'foo bar', ' x  y ', 'A', 'true', 'é']
 TEXTS = ['t', 'foo', ' ', '1', 'a b']
 VARS = {'s': 'abc', 'n': 2.0, 't': True, 'e': ''}
